@@ -476,6 +476,8 @@ class Sym:
             return f(o, me) if refl else f(me, o)
         if type(o).__name__ == 'Bicomplex':
             return NotImplemented
+        if isinstance(o, (float, np.floating)) and o != o:
+            return float('nan')          # NaN absorbs: x + nan, x * nan, ... are nan for every finite x
         ot = self._other(o)
         if ot is None:
             return NotImplemented
@@ -809,6 +811,9 @@ def ite(c, a, b):
     if isinstance(a, (SymC, complex, np.complexfloating)) or isinstance(b, (SymC, complex, np.complexfloating)):
         a, b = as_symc(a), as_symc(b)
         return SymC(ite(c, a.re, b.re), ite(c, a.im, b.im))
+    if any(isinstance(v, (float, np.floating)) and v != v for v in (a, b)):
+        # a NaN branch cannot be merged into a real-sorted If term: decide the condition (forks under an Explorer)
+        return a if bool(c) else b
     def _l(v, other):
         # keep integer sort when merging a python int with an Int-sorted term
         if isinstance(v, (int, np.integer)) and not isinstance(v, (bool, np.bool_)) and isinstance(other, Sym) and other.is_int:
